@@ -949,6 +949,11 @@ def check_C09(ctx):
     tlc(ctx, "Writer", "MC_Writer", dict(spec="Spec", invariants=["OkMeansComplete", "ErrorIsTheWriters", "NeverMoreThanAsked", "EmitCase"],
         properties=["Terminates"], constants=dict(Total="6" if thorough else "5", MaxAccept="3", MaxIntr="2", Emit="TRUE")),
         workers=8, timeout=1800, cases_file=wcases)
+    # beyond the small constants: the same invariants are inductive for EVERY total, acceptance and interruption count
+    # (Apalache, integers only); the negative control (an interrupted write taken for success) must break the step
+    apalache(ctx, "WriterInd", ["--init=Init", "--inv=IndInv", "--length=0"])
+    apalache(ctx, "WriterInd", ["--init=IndInit", "--inv=IndInv", "--length=1"])
+    apalache(ctx, "WriterInd", ["--init=IndInit", "--next=NextBad", "--inv=IndInv", "--length=1"], expect_error=True)
     summ = harness(ctx, ["writer", "replay"], cases_file=wcases, name="writer-replay", timeout=3600)
     report_mismatches(ctx, summ, "Beatmap::encode does not treat the writer's answers as Writer.tla requires")
     summ = harness(ctx, ["reader", "relations", "--prop", "C09", "--tier", ctx.tier], name="reader-rel", timeout=7000)
